@@ -55,6 +55,10 @@ def collect_case(draw, tier="quick"):
         for k in sel:
             emitted.append({"group": gi, "key": k, "flags": draw(st.lists(st.sampled_from(FLAGS), min_size=len(rows), max_size=len(rows))),
                             "dtype": draw(st.sampled_from(["uint8", "uint8", "int64"]))})
+    # a call that failed yields a ContextResult with an empty results list: it must contribute nothing
+    for gi, rows in enumerate(groups):
+        if draw(st.integers(0, 3)) == 0:
+            emitted.append({"group": gi, "key": draw(st.sampled_from(pool)), "flags": None, "dtype": "uint8"})
     axes = {a: draw(st.booleans()) for a in ("tinp", "zinp", "lat", "lon")}
     if draw(st.booleans()):
         axes = {a: True for a in axes}
@@ -89,6 +93,9 @@ def build(case):
             # pandas (copy-on-write) hands out read-only views; collecting must not write into them
             for a in list(ax.values()) + [data, idx]:
                 a.flags.writeable = False
+        if e["flags"] is None:
+            out.append(ContextResult(stream_id=stream, results=[], subset_indexes=idx, data=data, **ax))
+            continue
         out.append(ContextResult(stream_id=stream,
                                  results=[CallResult(package=mod, test=test,
                                                      function=getattr(mods[mod], test, None) or getattr(qartod, test),
@@ -102,6 +109,8 @@ def expected(case):
     n = case["n"]
     exp = {}
     for e in case["emitted"]:
+        if e["flags"] is None:
+            continue
         k = tuple(e["key"])
         col = exp.setdefault(k, [None] * n)
         for r, f in zip(case["groups"][e["group"]], e["flags"]):
@@ -117,6 +126,8 @@ def verify_order(case, order, rec, tag):
     exp = expected(case)
     info = {"order": tag, "axes_absent": [a for a, on in case["axes"].items() if not on],
             "partial": any(len(case["groups"][e["group"]]) != n for e in case["emitted"])}
+    # the data of a (stream, test) key comes from contexts of that key only
+    stream_of = {}
     site = "collect_results(list)"
     try:
         got = collect_results(list(seq), how="list")
@@ -194,6 +205,8 @@ def check_collect(case, rec):
     groups, emitted = case["groups"], case["emitted"]
     per_key = {}
     for e in emitted:
+        if e["flags"] is None:
+            continue
         per_key[tuple(e["key"])] = per_key.get(tuple(e["key"]), 0) + 1
     multi = any(v >= 2 for v in per_key.values())
     empty = any(len(g) == 0 for g in groups) and bool(emitted)
@@ -202,7 +215,8 @@ def check_collect(case, rec):
     perm = list(case["order"]) != sorted(case["order"])
     labels = [lab for lab, on in (("multi_context_key", multi), ("empty_group", empty), ("all_covering_group", allc),
                                   ("absent_axes", absent), ("non_identity_order", perm), ("no_results", not emitted),
-                                  ("n0", n == 0), ("readonly_arrays", case.get("readonly"))) if on]
+                                  ("n0", n == 0), ("readonly_arrays", case.get("readonly")),
+                                  ("failed_call_result", any(e["flags"] is None for e in emitted))) if on]
     rec.note(multi or empty or allc or absent or perm, labels)
     ident = list(range(len(emitted)))
     orders = [("identity", ident), ("given", list(case["order"])), ("reversed", ident[::-1])]
